@@ -9,7 +9,8 @@
 //! freshly built objects of every type (library builders and, for objects
 //! whose signed parts are to be rewritten, the independent encoder E5).
 //!
-//! Entry points (19 with modes): Cert, Crl, Manifest s/r, Roa s/r, Aspa s/r,
+//! Entry points (21 with modes; the last two are AsBlocks::from_str and
+//! IpBlocks::from_str): Cert, Crl, Manifest s/r, Roa s/r, Aspa s/r,
 //! Rta s/r, Tal::read_named, PublicKey, RpkiCaCsr, BgpsecCsr, IdCert,
 //! SignedMessage s/r, ProvisioningCms, PublicationCms.
 //!
@@ -103,17 +104,17 @@ const STEP_K: u64 = 1024;
 //============ seeds ============================================================
 
 #[derive(Clone, Copy, Debug, PartialEq, Eq, PartialOrd, Ord, Hash)]
-enum Kind { Cert, Crl, Mft, Roa, Aspa, Rta, Tal, Key, CsrCa, CsrBgp, IdCert, Sig }
+enum Kind { Cert, Crl, Mft, Roa, Aspa, Rta, Tal, Key, CsrCa, CsrBgp, IdCert, Sig, AsText, IpText }
 
 #[derive(Clone, Copy, Debug, PartialEq, Eq, PartialOrd, Ord, Hash)]
 enum Ep {
     Cert, Crl, MftS, MftR, RoaS, RoaR, AspaS, AspaR, RtaS, RtaR, Tal, Key, CsrCa, CsrBgp, IdCert,
-    SigS, SigR, ProvCms, PubCms,
+    SigS, SigR, ProvCms, PubCms, AsText, IpText,
 }
 
-const ALL_EPS: [Ep; 19] = [
+const ALL_EPS: [Ep; 21] = [
     Ep::Cert, Ep::Crl, Ep::MftS, Ep::MftR, Ep::RoaS, Ep::RoaR, Ep::AspaS, Ep::AspaR, Ep::RtaS, Ep::RtaR,
-    Ep::Tal, Ep::Key, Ep::CsrCa, Ep::CsrBgp, Ep::IdCert, Ep::SigS, Ep::SigR, Ep::ProvCms, Ep::PubCms,
+    Ep::Tal, Ep::Key, Ep::CsrCa, Ep::CsrBgp, Ep::IdCert, Ep::SigS, Ep::SigR, Ep::ProvCms, Ep::PubCms, Ep::AsText, Ep::IpText,
 ];
 
 impl Ep {
@@ -123,6 +124,7 @@ impl Ep {
             Ep::AspaS | Ep::AspaR => "aspa", Ep::RtaS | Ep::RtaR => "rta", Ep::Tal => "tal", Ep::Key => "pubkey",
             Ep::CsrCa => "csr-ca", Ep::CsrBgp => "csr-bgpsec", Ep::IdCert => "idcert",
             Ep::SigS | Ep::SigR => "sigmsg", Ep::ProvCms => "provcms", Ep::PubCms => "pubcms",
+            Ep::AsText => "asblocks-text", Ep::IpText => "ipblocks-text",
         }
     }
     /// The decode mode as it appears at the front of every witness.
@@ -130,7 +132,7 @@ impl Ep {
         match self {
             Ep::MftS | Ep::RoaS | Ep::AspaS | Ep::RtaS | Ep::SigS => "strict",
             Ep::MftR | Ep::RoaR | Ep::AspaR | Ep::RtaR | Ep::SigR | Ep::ProvCms | Ep::PubCms => "relaxed",
-            Ep::Tal => "text",
+            Ep::Tal | Ep::AsText | Ep::IpText => "text",
             _ => "der",
         }
     }
@@ -151,6 +153,8 @@ fn eps_for(kind: Kind) -> &'static [Ep] {
         Kind::CsrCa => &[Ep::CsrCa, Ep::CsrBgp],
         Kind::CsrBgp => &[Ep::CsrBgp, Ep::CsrCa],
         Kind::Sig => &[Ep::SigS, Ep::SigR, Ep::ProvCms, Ep::PubCms],
+        Kind::AsText => &[Ep::AsText],
+        Kind::IpText => &[Ep::IpText],
     }
 }
 
@@ -167,13 +171,15 @@ struct Seed {
     der: Vec<u8>,
     tree: Option<Tree>,
     fresh: bool,
+    /// run as it is only (its own space), not mutated
+    own_space: bool,
 }
 
 impl Seed {
     fn new(name: &str, kind: Kind, bytes: Vec<u8>, fresh: bool) -> Seed {
         let (tal_prefix, der) = if kind == Kind::Tal { split_tal(&bytes) } else { (None, bytes.clone()) };
-        let tree = Tree::parse(&der);
-        Seed { name: name.to_string(), kind, bytes, tal_prefix, der, tree, fresh }
+        let tree = if matches!(kind, Kind::AsText | Kind::IpText) { None } else { Tree::parse(&der) };
+        Seed { name: name.to_string(), kind, bytes, tal_prefix, der, tree, fresh, own_space: false }
     }
     fn wrap(&self, der: Vec<u8>) -> Vec<u8> {
         match &self.tal_prefix {
@@ -512,8 +518,101 @@ fn build_env() -> Env {
     seeds.push(Seed::new("fresh/e5.mft", Kind::Mft, e5_signed_object(&signer, der::OID_CT_MANIFEST, &fx.mft_econtent, &fx.ee_inherit_der, 2, vec![], true), true));
     seeds.push(Seed::new("fresh/e5.asa", Kind::Aspa, e5_signed_object(&signer, der::OID_CT_ASPA, &fx.aspa_econtent, &fx.ee_as_der, 2, vec![], true), true));
 
+    //--- boundary-rich chain: resource lists with several entries touching 0 and the maxima
+    let m96 = (1u128 << 96) - 1;
+    let edge_ta_res = Res {
+        v4: Claim::Blocks(vec![(0, 0x00ff_ffff), (0x0a00_0000, 0x0aff_ffff), (0xffff_ff00, 0xffff_ffff)]),
+        v6: Claim::Blocks(vec![(0, (1u128 << 112) - 1), (0x2001_0db8u128 << 96, (0x2001_0db8u128 << 96) | m96), (0xffffu128 << 112, u128::MAX)]),
+        asn: Claim::Blocks(vec![(0, 0), (5, 100), (64496, 65535), (4294967290, 4294967295)]),
+    };
+    let edge_ca_res = Res {
+        v4: Claim::Blocks(vec![(0, 0x00ff_ffff), (0x0a00_0000, 0x0a00_01ff), (0xffff_ffff, 0xffff_ffff)]),
+        v6: Claim::Blocks(vec![(0, (1u128 << 112) - 1), (0x2001_0db8u128 << 96, (0x2001_0db8u128 << 96) | m96), (0xffffu128 << 112, u128::MAX)]),
+        asn: Claim::Blocks(vec![(0, 0), (5, 6), (64496, 64511), (4294967295, 4294967295)]),
+    };
+    let edge_ee_res = Res {
+        v4: Claim::Blocks(vec![(0, 0x00ff_ffff), (0xffff_ffff, 0xffff_ffff)]),
+        v6: Claim::Blocks(vec![(0, (1u128 << 112) - 1), (0xffffu128 << 112, u128::MAX)]),
+        asn: Claim::Blocks(vec![(0, 0), (5, 6), (4294967295, 4294967295)]),
+    };
+    let edge_ta_der = pki::build_cert_der(&signer, &spec_with(Spec::ta(4, edge_ta_res), 21));
+    let edge_ta = Cert::decode(edge_ta_der.as_slice()).expect("edge TA decodes").validate_ta_at(pki::tal(), true, t0()).expect("edge TA validates");
+    let edge_ca_der = pki::build_cert_der(&signer, &spec_with(Spec::issued(pki::Kind::Ca, 5, 4, edge_ta.subject_key_identifier(), edge_ca_res, Overclaim::Refuse), 22));
+    let edge_ca = Cert::decode(edge_ca_der.as_slice()).expect("edge CA decodes").validate_ca_at(&edge_ta, true, t0()).expect("edge CA validates");
+    let edge_ee_der = pki::build_cert_der(&signer, &spec_with(Spec::issued(pki::Kind::Ee, 6, 5, edge_ca.subject_key_identifier(), edge_ee_res, Overclaim::Refuse), 23));
+    let edge_router_der = pki::build_cert_der(&signer, &spec_with(Spec::issued(pki::Kind::Router, 3, 5, edge_ca.subject_key_identifier(),
+        Res { v4: Claim::Missing, v6: Claim::Missing, asn: Claim::Blocks(vec![(0, 0), (6, 6), (4294967295, 4294967295)]) }, Overclaim::Refuse), 24));
+    seeds.push(Seed::new("fresh/edge-ta.cer", Kind::Cert, edge_ta_der, true));
+    seeds.push(Seed::new("fresh/edge-ca.cer", Kind::Cert, edge_ca_der.clone(), true));
+    seeds.push(Seed::new("fresh/edge-ee.cer", Kind::Cert, edge_ee_der.clone(), true));
+    seeds.push(Seed::new("fresh/edge-router.cer", Kind::Cert, edge_router_der, true));
+    let sob5 = |serial: u64, name: &str| {
+        let mut b = SignedObjectBuilder::new(Serial::from(serial), long_validity(), rsync("rsync://example.net/repo/edge/edge.crl"),
+            rsync("rsync://example.net/repo/edge.cer"), rsync(&format!("rsync://example.net/repo/edge/{name}")));
+        b.set_signing_time(t0());
+        b
+    };
+    let mut rb = RoaBuilder::new(Asn::from_u32(4294967295));
+    rb.push_v4_addr(std::net::Ipv4Addr::new(0, 0, 0, 0), 8, Some(32));
+    rb.push_v4_addr(std::net::Ipv4Addr::new(10, 0, 0, 0), 24, None);
+    rb.push_v4_addr(std::net::Ipv4Addr::new(255, 255, 255, 255), 32, Some(32));
+    rb.push_v6_addr(std::net::Ipv6Addr::new(0, 0, 0, 0, 0, 0, 0, 0), 16, Some(128));
+    rb.push_v6_addr(std::net::Ipv6Addr::new(0xffff, 0, 0, 0, 0, 0, 0, 0), 16, None);
+    let edge_roa = rb.finalize(sob5(31, "edge.roa"), &signer, &Kid(5)).expect("edge roa");
+    seeds.push(Seed::new("fresh/edge.roa", Kind::Roa, edge_roa.to_captured().as_slice().to_vec(), true));
+    let mut ab = AspaBuilder::empty(Asn::from_u32(5));
+    for p in [0u32, 6, 65535, 65536, 4294967295] { ab.add_provider(Asn::from_u32(p)).expect("provider") }
+    let edge_aspa = ab.finalize(sob5(32, "edge.asa"), &signer, &Kid(5)).expect("edge aspa");
+    seeds.push(Seed::new("fresh/edge.asa", Kind::Aspa, edge_aspa.to_captured().as_slice().to_vec(), true));
+    let edge_rta_der = {
+        let digest = DigestAlgorithm::default().digest(b"attested document");
+        let mut att = rta::AttestationBuilder::new(DigestAlgorithm::default(), digest.into());
+        att.push_key(signer.public(6).key_identifier());
+        for b in pki::ip_blocks(32, &[(0, 0x00ff_ffff), (0xffff_ffff, 0xffff_ffff)]).iter() { att.push_v4(b) }
+        for b in pki::ip_blocks(128, &[(0, (1u128 << 112) - 1), (0xffffu128 << 112, u128::MAX)]).iter() { att.push_v6(b) }
+        for b in pki::as_blocks(&[(0, 0), (5, 6), (4294967295, 4294967295)]).iter() { att.push_as(b) }
+        let mut b = att.into_rta_builder();
+        b.push_cert(Cert::decode(edge_ee_der.as_slice()).unwrap());
+        b.sign(&signer, &Kid(6), t0()).expect("edge rta sign");
+        b.finalize().to_captured().as_slice().to_vec()
+    };
+    seeds.push(Seed::new("fresh/edge.rta", Kind::Rta, edge_rta_der, true));
+
+    //--- text lists for the FromStr decoders
+    seeds.push(Seed::new("fresh/as-list.txt", Kind::AsText, b"AS0, AS5-AS6, AS64496-AS64511, AS4294967295".to_vec(), true));
+    seeds.push(Seed::new("fresh/ipv4-list.txt", Kind::IpText, b"0.0.0.0/8, 10.0.0.0-10.0.1.255, 192.0.2.7, 255.255.255.255/32".to_vec(), true));
+    seeds.push(Seed::new("fresh/ipv6-list.txt", Kind::IpText, b"::/16, 2001:db8::/32, 2001:db9::1-2001:db9::ffff, ffff::/16".to_vec(), true));
+
+    //--- an RTA whose two embedded CA certificates name each other as issuer
+    // (A: key 3 issued by key 6; B: key 6 issued by key 3; both with inherited
+    // resources and a CRL each), EE (key 2) under A signs. Run in its own space.
+    {
+        let inherit = || Res { v4: Claim::Inherit, v6: Claim::Inherit, asn: Claim::Inherit };
+        let a_der = pki::build_cert_der(&signer, &spec_with(Spec::issued(pki::Kind::Ca, 3, 6, signer.ski(6), inherit(), Overclaim::Refuse), 41));
+        let b_der = pki::build_cert_der(&signer, &spec_with(Spec::issued(pki::Kind::Ca, 6, 3, signer.ski(3), inherit(), Overclaim::Refuse), 42));
+        let e_der = pki::build_cert_der(&signer, &spec_with(Spec::issued(pki::Kind::Ee, 2, 3, signer.ski(3), inherit(), Overclaim::Refuse), 43));
+        let crl_of = |k: usize| TbsCertList::new(
+            RpkiSignatureAlgorithm::default(), signer.public(k).to_subject_name(), pki::time(pki::T0 - 3600), Time::utc(2123, 11, 14, 0, 0, 0),
+            vec![CrlEntry::new(Serial::from(999u64), pki::time(pki::T0 - 7200))], signer.public(k).key_identifier(), Serial::from(1u64),
+        ).into_crl(&signer, &Kid(k)).expect("cycle crl");
+        let digest = DigestAlgorithm::default().digest(b"attested document");
+        let mut att = rta::AttestationBuilder::new(DigestAlgorithm::default(), digest.into());
+        att.push_key(signer.public(2).key_identifier());
+        att.push_v4(IpBlock::from(Prefix::new(std::net::Ipv4Addr::new(10, 0, 0, 0), 24)));
+        let mut b = att.into_rta_builder();
+        b.push_cert(Cert::decode(e_der.as_slice()).unwrap());
+        b.push_cert(Cert::decode(a_der.as_slice()).unwrap());
+        b.push_cert(Cert::decode(b_der.as_slice()).unwrap());
+        b.push_crl(crl_of(3));
+        b.push_crl(crl_of(6));
+        b.sign(&signer, &Kid(2), t0()).expect("cycle rta sign");
+        let mut sd = Seed::new("fresh/ca-cycle.rta", Kind::Rta, b.finalize().to_captured().as_slice().to_vec(), true);
+        sd.own_space = true;
+        seeds.push(sd);
+    }
+
     //--- fixed issuers
-    let mut issuers = vec![(ta.clone(), t0()), (ca.clone(), t0())];
+    let mut issuers = vec![(ta.clone(), t0()), (ca.clone(), t0()), (edge_ca.clone(), t0())];
     let at2019 = Time::utc(2019, 5, 1, 0, 0, 0);
     let find = |name: &str| seeds.iter().find(|s| s.name == name).map(|s| s.bytes.clone());
     if let Some(b) = find("repository/ta.cer") {
@@ -539,7 +638,17 @@ fn build_env() -> Env {
         RsSeed::new("rs/e5.roa#econtent", RsKind::RoaContent, fx.roa_econtent.clone()),
         RsSeed::new("rs/e5.mft#econtent", RsKind::MftContent, fx.mft_econtent.clone()),
         RsSeed::new("rs/e5.asa#econtent", RsKind::AspaContent, fx.aspa_econtent.clone()),
+        RsSeed::new("rs/edge-ca.cer#tbs", RsKind::CertTbs(4), tlv_child(&edge_ca_der, &[0]).to_vec()),
+        RsSeed::new("rs/edge-ee.cer#tbs", RsKind::CertTbs(5), tlv_child(&edge_ee_der, &[0]).to_vec()),
     ];
+    // the OID value menu: every OBJECT IDENTIFIER that occurs in any seed
+    {
+        let mut pool: Vec<Vec<u8>> = Vec::new();
+        for (t, buf) in seeds.iter().filter_map(|s| s.tree.as_ref().map(|t| (t, &s.der))).chain(rs.iter().map(|r| (&r.tree, &r.inner))) {
+            for n in &t.nodes { if n.tag == 0x06 { pool.push(buf[n.start + n.hdr..n.content_end()].to_vec()) } }
+        }
+        mutate::set_oid_pool(pool);
+    }
 
     Env { signer, seeds, skipped, issuers, keys, tal, base: rsync("rsync://example.net/repo/ca/"), some_sig, rs, fx }
 }
@@ -1148,6 +1257,14 @@ fn run_case(env: &Env, ep: Ep, bytes: &[u8], do_sweep: bool) -> CaseOut {
             calls.set(rd.calls);
             r
         }
+        Ep::AsText | Ep::IpText => match std::str::from_utf8(bytes) {
+            Err(_) => { reject = "not UTF-8 (cannot be passed to FromStr)".into(); false }
+            Ok(text) => {
+                calls.set(0);
+                if ep == Ep::AsText { dec!(AsBlocks::from_str(text), v => sw.as_blocks(&v)) }
+                else { dec!(IpBlocks::from_str(text), v => { sw.ip_blocks(&v, true); sw.ip_blocks(&v, false) }) }
+            }
+        },
         Ep::Key => dec!(PublicKey::decode(src()), v => sw.public_key(&v)),
         Ep::CsrCa => dec!(RpkiCaCsr::decode(src()), v => sw.csr(&v, |c| {
             let _ = (c.basic_ca(), c.key_usage(), c.extended_key_usage().is_some(), c.ca_repository().map(|u| u.to_string()),
@@ -1194,21 +1311,33 @@ fn run_case(env: &Env, ep: Ep, bytes: &[u8], do_sweep: bool) -> CaseOut {
 //============ case enumeration (pure functions of seed and index) ==================
 
 #[derive(Clone, Copy, Debug, PartialEq, Eq, Hash, PartialOrd, Ord)]
-enum SpaceId { B0, B1, B2P, B2L, Str, Rs, SelfTest }
+enum SpaceId { B0, B1, B2P, B2L, Str, Rs, SelfTest, Own }
 
 impl SpaceId {
     fn code(self) -> &'static str {
-        match self { SpaceId::B0 => "b0", SpaceId::B1 => "b1", SpaceId::B2P => "b2p", SpaceId::B2L => "b2l", SpaceId::Str => "str", SpaceId::Rs => "rs", SpaceId::SelfTest => "self" }
+        match self { SpaceId::B0 => "b0", SpaceId::B1 => "b1", SpaceId::B2P => "b2p", SpaceId::B2L => "b2l", SpaceId::Str => "str", SpaceId::Rs => "rs", SpaceId::SelfTest => "self", SpaceId::Own => "own" }
     }
     fn parse(s: &str) -> Option<SpaceId> {
-        [SpaceId::B0, SpaceId::B1, SpaceId::B2P, SpaceId::B2L, SpaceId::Str, SpaceId::Rs, SpaceId::SelfTest].into_iter().find(|x| x.code() == s)
+        [SpaceId::B0, SpaceId::B1, SpaceId::B2P, SpaceId::B2L, SpaceId::Str, SpaceId::Rs, SpaceId::SelfTest, SpaceId::Own].into_iter().find(|x| x.code() == s)
     }
 }
 
 #[derive(Clone, Copy, Debug)]
-enum Case1 { Node(u32, Op), Trunc(u32), Byte(u32, u8), Bit(u32, u8) }
+enum Case1 { Node(u32, Op), Trunc(u32), Byte(u32, u8), Bit(u32, u8), Tok(mutate::TokOp) }
 
-const TEXT_VALUES: [u8; 5] = [b'\n', b'#', b'\r', b'=', b' '];
+const TEXT_VALUES: [u8; 8] = [b'\n', b'#', b'\r', b'=', b' ', b',', b'-', b'/'];
+
+/// Token delimiter and replacement menu of a text seed.
+fn text_menu(kind: Kind) -> Option<(&'static [u8], &'static [&'static [u8]])> {
+    const AS: &[&[u8]] = &[b"AS0", b"AS1", b"AS65535", b"AS65536", b"AS4294967295", b"AS4294967296", b"AS4294967294-AS4294967295", b"AS0-AS4294967295",
+        b"AS5-AS3", b"AS4294967295-AS0", b"AS", b"", b"0", b"7", b"inherit", b"AS-1", b"AS1-", b"-AS1", b"AS01", b"as7", b"AS7-AS7", b"AS99999999999999999999"];
+    const IP: &[&[u8]] = &[b"0.0.0.0/0", b"0.0.0.0/8", b"255.255.255.255/32", b"255.255.255.255", b"0.0.0.0-255.255.255.255", b"10.0.0.0/33", b"10.0.0.0/", b"10.0.0.5-10.0.0.3",
+        b"255.255.255.255-0.0.0.0", b"::/0", b"::/16", b"ffff::/16", b"ffff:ffff:ffff:ffff:ffff:ffff:ffff:ffff/128", b"::-ffff:ffff:ffff:ffff:ffff:ffff:ffff:ffff",
+        b"2001:db8::/129", b"::ffff:192.0.2.1/128", b"ffff::-::", b"", b"/", b"-", b"inherit", b"1.2.3/8", b"10.0.0.0/8-10.0.0.1", b"1.2.3.4/256"];
+    const TAL: &[&[u8]] = &[b"", b"#", b"# c", b"rsync://example.net/a.cer", b"https://example.net/a.cer", b"http://x/y", b"rsync://", b"https://", b"rsync://h/m/../x",
+        b"\r", b"AAAA", b"=", b"MIIB", b"rsync://example.net/a.cer\r"];
+    match kind { Kind::AsText => Some((b", ", AS)), Kind::IpText => Some((b", ", IP)), Kind::Tal => Some((b"\n", TAL)), _ => None }
+}
 
 /// All bound-1 cases of a seed, in a fixed order.
 fn b1_cases(seed: &Seed, thorough: bool) -> Vec<Case1> {
@@ -1231,10 +1360,14 @@ fn b1_cases(seed: &Seed, thorough: bool) -> Vec<Case1> {
     for &p in &pos { v.push(Case1::Trunc(p as u32)) }
     for &p in &pos {
         for val in mutate::BYTE_VALUES { if seed.bytes[p] != val { v.push(Case1::Byte(p as u32, val)) } }
-        if seed.kind == Kind::Tal { for val in TEXT_VALUES { if seed.bytes[p] != val { v.push(Case1::Byte(p as u32, val)) } } }
+        if text_menu(seed.kind).is_some() { for val in TEXT_VALUES { if seed.bytes[p] != val { v.push(Case1::Byte(p as u32, val)) } } }
     }
     if thorough {
         for &p in &pos { for b in 0..8u8 { v.push(Case1::Bit(p as u32, b)) } }
+    }
+    if let Some((delim, menu)) = text_menu(seed.kind) {
+        let ntok = mutate::split_tokens(&seed.bytes, delim).len();
+        for op in mutate::token_ops(ntok, menu.len()) { v.push(Case1::Tok(op)) }
     }
     v
 }
@@ -1245,10 +1378,17 @@ fn case1_bytes(seed: &Seed, c: Case1) -> Vec<u8> {
         Case1::Trunc(k) => mutate::truncate(&seed.bytes, k as usize).to_vec(),
         Case1::Byte(p, v) => mutate::set_byte(&seed.bytes, p as usize, v),
         Case1::Bit(p, b) => mutate::flip_bit(&seed.bytes, p as usize, b),
+        Case1::Tok(op) => { let (delim, menu) = text_menu(seed.kind).unwrap(); mutate::token_apply(&mutate::split_tokens(&seed.bytes, delim), delim, op, menu) }
     }
 }
 
-fn node_desc(t: &Tree, i: u32, op: Op) -> String { format!("node={}:{}", t.nodes[i as usize].path_str(), op.name(t)) }
+fn node_desc(t: &Tree, i: u32, op: Op) -> String {
+    let n = &t.nodes[i as usize];
+    match op {
+        Op::Value(k) => format!("node={}:{}", n.path_str(), mutate::value_name(n.tag, k as usize)),
+        _ => format!("node={}:{}", n.path_str(), op.name(t)),
+    }
+}
 
 fn case1_desc(seed: &Seed, c: Case1) -> String {
     match c {
@@ -1256,6 +1396,7 @@ fn case1_desc(seed: &Seed, c: Case1) -> String {
         Case1::Trunc(k) => format!("trunc={k}"),
         Case1::Byte(p, v) => format!("byte[{p}]={v:02x}"),
         Case1::Bit(p, b) => format!("bit[{p}].{b}"),
+        Case1::Tok(op) => mutate::tok_name(op, text_menu(seed.kind).unwrap().1),
     }
 }
 
@@ -1360,6 +1501,7 @@ impl Worker {
         if !bytes.is_empty() { res.max_ratio = res.max_ratio.max(out.steps * 1000 / bytes.len() as u64) }
         let class = if out.decoded { if out.fails.is_empty() { "decoded".to_string() } else { "decoded, accessor failed".to_string() } }
                     else if out.fails.is_empty() { format!("rejected: {}", out.reject) } else { "decoder failed".to_string() };
+        let class = if sp == SpaceId::Own { format!("{class} [{}/{}]", ep.name(), ep.mode()) } else { class };
         *res.outcomes.entry(class).or_insert(0) += 1;
         for m in &out.marks { *res.marks.entry(format!("{} [{}/{}]", m, ep.name(), ep.mode())).or_insert(0) += 1 }
         if !out.fails.is_empty() {
@@ -1395,7 +1537,7 @@ impl Worker {
     fn run_task(&mut self, t: &Task) -> TaskResult {
         let mut res = TaskResult::default();
         match t.sp {
-            SpaceId::B0 => {
+            SpaceId::B0 | SpaceId::Own => {
                 let s = &self.env.seeds[t.seed];
                 let out = run_case(&self.env, t.ep, &s.bytes, true);
                 if out.decoded { res.nontrivial += 1 }
@@ -1653,6 +1795,7 @@ impl PoolState {
     /// known (so that isolating a hang does not take minutes per step).
     fn timeout(&self, t: &Task, bisecting: bool) -> Duration {
         if t.sp == SpaceId::SelfTest { return Duration::from_millis(1500) }
+        if t.sp == SpaceId::Own { return Duration::from_secs(10) }
         let ceiling = if bisecting { 30.0 } else if self.thorough { 180.0 } else { 90.0 };
         let est = self.stats.lock().unwrap().get(&t.sp).and_then(|&(secs, idx, n)| if n >= 4 && idx > 0 { Some(secs / idx as f64 * t.size() as f64) } else { None });
         let secs = match est {
@@ -1663,7 +1806,7 @@ impl PoolState {
     }
     /// The single input that is about to be blamed gets a fixed generous budget.
     fn timeout_single(&self, t: &Task) -> Duration {
-        if t.sp == SpaceId::SelfTest { Duration::from_millis(1500) } else { Duration::from_secs(30) }
+        if t.sp == SpaceId::SelfTest { Duration::from_millis(1500) } else if t.sp == SpaceId::Own { Duration::from_secs(10) } else { Duration::from_secs(30) }
     }
 
     fn key(t: &Task) -> (SpaceId, usize, usize) { (t.sp, t.seed, t.ep.idx()) }
@@ -1764,7 +1907,7 @@ impl PoolState {
 fn describe_case(env: &Env, thorough: bool, t: &Task) -> (String, String, Vec<u8>) {
     let idx = t.lo;
     match t.sp {
-        SpaceId::B0 => { let s = &env.seeds[t.seed]; (s.name.clone(), "seed".into(), s.bytes.clone()) }
+        SpaceId::B0 | SpaceId::Own => { let s = &env.seeds[t.seed]; (s.name.clone(), "seed".into(), s.bytes.clone()) }
         SpaceId::B1 => {
             let s = &env.seeds[t.seed];
             let list = b1_cases(s, thorough);
@@ -1891,13 +2034,15 @@ fn main() {
     let mut plan = Plan { tasks: Vec::new(), next_id: 0 };
     // worker self-test: the machinery must find a planted abort / OOM / hang / stack overflow
     for kind in 0..4usize { plan.add_range(SpaceId::SelfTest, kind, Ep::Cert, 64, 64) }
+    // objects with a space of their own (first, so that a stall overlaps with the rest)
+    for (i, s) in env.seeds.iter().enumerate() { if s.own_space { for &ep in eps_for(s.kind) { plan.add_range(SpaceId::Own, i, ep, 1, 1) } } }
     // re-signed
     for (i, rs) in env.rs.iter().enumerate() {
         let total = singles_full(&rs.tree).len() as u64;
         plan.add_range(SpaceId::Rs, i, rs.eps()[0], total, 96);
     }
     // bound 1 (largest seeds first)
-    let b1_lists: Vec<Vec<Case1>> = env.seeds.par_iter().map(|s| b1_cases(s, thorough)).collect();
+    let b1_lists: Vec<Vec<Case1>> = env.seeds.par_iter().map(|s| if s.own_space { Vec::new() } else { b1_cases(s, thorough) }).collect();
     let mut order: Vec<usize> = (0..env.seeds.len()).collect();
     order.sort_by_key(|&i| std::cmp::Reverse(env.seeds[i].bytes.len()));
     for &i in &order {
@@ -1906,13 +2051,14 @@ fn main() {
         for &ep in eps_for(s.kind) { plan.add_range(SpaceId::B1, i, ep, b1_lists[i].len() as u64, chunk) }
     }
     // bound 0
-    for (i, s) in env.seeds.iter().enumerate() { for &ep in eps_for(s.kind) { plan.add_range(SpaceId::B0, i, ep, 1, 1) } }
+    for (i, s) in env.seeds.iter().enumerate() { if !s.own_space { for &ep in eps_for(s.kind) { plan.add_range(SpaceId::B0, i, ep, 1, 1) } } }
     // bound 2 (thorough): one seed per kind, the one with the fewest TLV nodes
     let mut b2_seeds: Vec<usize> = Vec::new();
     if thorough {
         let mut best: BTreeMap<Kind, usize> = BTreeMap::new();
         for (i, s) in env.seeds.iter().enumerate() {
             let Some(t) = &s.tree else { continue };
+            if s.own_space { continue }
             // freshly built seeds (known to decode) are preferred; the parent never
             // runs the subject on a seed itself
             if !s.fresh && env.seeds.iter().any(|o| o.kind == s.kind && o.fresh && o.tree.is_some()) { continue }
@@ -2044,8 +2190,16 @@ fn main() {
     finish_space(SpaceId::Rs, "bound1.resigned",
         &format!("deviations behind the signature checks: every full-menu operator at every node of a to-be-signed part (TBS of fresh EE/CA/router and identity certificates; TBSCertList and identity EE certificate inside a signed message; ROA/manifest/ASPA eContent), after which the object is signed again with the pool keys (message digest, signed attributes, CRL and certificate signatures) and decoded and swept; cases rejected with zero signatures are not signed; non-trivial = deviations that still decode. Operator menu: {menu}"),
         true, "deviation bound 1 on 9 to-be-signed parts", None);
+    {
+        let hung = deaths.iter().filter(|d| d.task.sp == SpaceId::Own).count() as u64;
+        let hung_eps: Vec<Ep> = deaths.iter().filter(|d| d.task.sp == SpaceId::Own).map(|d| d.task.ep).collect();
+        let sp = finish_space(SpaceId::Own, "rta.ca_cycle",
+            "one hand-built object: an RTA that embeds two CA certificates naming (and signing) each other as issuer, each with its CRL and inherited resources, and a detached EE certificate under one of them that signs the attestation; decoded strict and relaxed and swept (rta::Validation::new_at must return); non-trivial = both runs",
+            true, "1 object x 2 modes", Some(2));
+        if hung > 0 { sp.evals(hung); for ep in hung_eps { sp.outcome(&format!("worker stalled in the sweep [{}/{}]", ep.name(), ep.mode())) } }
+    }
     finish_space(SpaceId::Str, "strings.short",
-        &format!("all octet strings of length 0..={max_len} into each of the 19 entry point/mode combinations; every (string, entry point) pair is distinct and counted as non-trivial"),
+        &format!("all octet strings of length 0..={max_len} into each of the 21 entry point/mode combinations (non-UTF-8 strings cannot be passed to the two FromStr decoders and count as rejected); every (string, entry point) pair is distinct and counted as non-trivial"),
         true, &format!("all strings of length <= {max_len}"), None);
 
     //--- violations (deterministic order)
